@@ -46,6 +46,8 @@ type C03Op struct {
 
 type c03Input struct {
 	Unroll  string    `json:"unroll"` // unset | false | true
+	// where unroll-variadic is written: top | package | interface | interface-over-package (the package level says the opposite)
+	UnrollLevel string `json:"unrollLevel"`
 	Methods []BMethod `json:"methods"`
 	Ops     []C03Op   `json:"ops"`
 }
@@ -68,7 +70,7 @@ func (c03) Generate(c *Ctx) []any {
 	n := c.Budget(48, 480)
 	for i := 0; i < n; i++ {
 		r := c.Rng
-		in := c03Input{Unroll: []string{"unset", "false", "true"}[i%3]}
+		in := c03Input{Unroll: []string{"unset", "false", "true"}[i%3], UnrollLevel: []string{"top", "package", "interface", "interface-over-package"}[(i/3)%4]}
 		nm := 1 + r.Intn(3)
 		for k := 0; k < nm; k++ {
 			m := genBMethod(r, bMethodNames[k])
@@ -182,10 +184,22 @@ func fillTokens(in *c03Input) {
 func c03Config(in *c03Input) string {
 	var b strings.Builder
 	b.WriteString("template: testify\nformatter: gofmt\nforce-file-write: true\nfilename: mocks_test.go\n")
-	if in.Unroll != "unset" {
+	set := in.Unroll != "unset"
+	opposite := map[string]string{"true": "false", "false": "true"}[in.Unroll]
+	if set && in.UnrollLevel == "top" {
 		fmt.Fprintf(&b, "template-data:\n  unroll-variadic: %s\n", in.Unroll)
 	}
-	b.WriteString("packages:\n  example.com/m/store:\n    interfaces:\n      Store:\n")
+	b.WriteString("packages:\n  example.com/m/store:\n")
+	if set && in.UnrollLevel == "package" {
+		fmt.Fprintf(&b, "    config:\n      template-data:\n        unroll-variadic: %s\n", in.Unroll)
+	}
+	if set && in.UnrollLevel == "interface-over-package" {
+		fmt.Fprintf(&b, "    config:\n      template-data:\n        unroll-variadic: %s\n", opposite)
+	}
+	b.WriteString("    interfaces:\n      Store:\n")
+	if set && (in.UnrollLevel == "interface" || in.UnrollLevel == "interface-over-package") {
+		fmt.Fprintf(&b, "        config:\n          template-data:\n            unroll-variadic: %s\n", in.Unroll)
+	}
 	return b.String()
 }
 
@@ -579,7 +593,7 @@ func (c03) Run(c *Ctx, raw json.RawMessage) Case {
 		return Case{Oracle: fail("harness", "%v", err)}
 	}
 	defer os.RemoveAll(dir)
-	tags := []string{"unroll-" + in.Unroll}
+	tags := []string{"unroll-" + in.Unroll, "unroll-at-" + in.UnrollLevel}
 	for _, m := range in.Methods {
 		if m.Variadic >= 0 {
 			tags = append(tags, "variadic")
